@@ -2182,7 +2182,9 @@ def evidence_info(prop):
                 'nine-parameter function (flat keys of more than 16 items), a function without named parameters, one whose '
                 'parameter names differ by case only, a generator function (C15), a by-value nested function. In 6% of the runs '
                 'of C01 C05 C06 C07 C15 C20 the decorator OBJECT is copied / deep-copied / dill-pickled before it decorates. '
-                'Results include strings that look like numbers. Un-keyable arguments (safe caches): '
+                'In 8% of all runs another decorator object of the same class (other maxsize / purge) is built first; in some C01 C15 C18 '
+                'runs the decorator object also decorates another function. Results include strings that look like numbers and bytes '
+                'that are complete pickles. Un-keyable arguments (safe caches): '
                 'lists, dicts, sets, objects whose repr/pickling/hash raise, a writable memoryview. Raising calls '
                 'raise an Exception, a BaseException (interrupt-like) or a TimeoutError / KeyError / TypeError subclass, a fifth '
                 'of them `from` an explicit cause. Per '
@@ -2190,7 +2192,8 @@ def evidence_info(prop):
                 'archives with another compatible option set at a restart; C06 adds MRU attach-and-load histories; C02 adds float nan arguments (raw keymap, pickled directory archives); C05 adds the storage '
                 'fault "vanish" (the archive\'s directory is removed mid-run, later operations may fail, the bound must '
                 'hold) and decorators built without maxsize (bound 100, 103-125 distinct calls); C02/C07 add steps where the '
-                'shared store is emptied through another handle or by cache.sync(clear=True); C20 round trips may have '
+                'shared store is emptied through another handle or by cache.sync(clear=True), one entry is invalidated by hand '
+                'through f.__cache__(), or the cache object is checkpointed (dump + clear); C20 adds f.__cache__().sync() steps; C16 rr runs seed the global random once per run; C20 round trips may have '
                 'the store emptied between dumps() and loads(); C06 adds purge configurations whose archive is switched off mid-run; tol runs (C16 C18 C20) add a '
                 'float subclass and floats nested in tuples (deep rounding). Oracle: '
                 + RULES[prop] + '. distinct = distinct (configuration, sequence of (step kind, resident count)); '
